@@ -142,6 +142,56 @@ static mjSpec* scene_spec(uint64_t seed, int nb) {
   return s;
 }
 
+// kinematic chains with jointless ("tool") bodies: world -> A (free) -> L (hinge) -> T1 (jointless) -> T2 (jointless),
+// a second branch L2 (slide) -> T3 (jointless), and jointless bodies S1 -> S2 welded to the world; all geoms are placed
+// close to the chain so that the geoms of a weld group overlap those of the weld group one joint up
+static mjSpec* chain_spec(uint64_t seed) {
+  mjg_rng R = { seed * 0x9E3779B97F4A7C15ULL + 991 }; mjg_rng* r = &R;
+  mjSpec* s = mj_makeSpec();
+  s->memory = 1 << 26;
+  mjsBody* world = mjs_findBody(s, "world");
+  int ngeom = 0, nbody = 0; char nm[32];
+  double sz = 0.2;
+  if (mjg_chance(r, 0.5)) add_geoms(r, world, 1, &ngeom, 0, sz);
+  mjsBody* parent = world;
+  mjsBody* S1 = NULL;
+  if (mjg_chance(r, 0.7)) {
+    S1 = mjs_addBody(world, NULL); bname(nm, nbody++); mjs_setName(S1->element, nm);
+    for (int i = 0; i < 3; i++) S1->pos[i] = mjg_range(r, -0.15, 0.15);
+    add_geoms(r, S1, 1 + mjg_int(r, 2), &ngeom, 0, sz);
+    if (mjg_chance(r, 0.6)) {
+      mjsBody* S2 = mjs_addBody(S1, NULL); bname(nm, nbody++); mjs_setName(S2->element, nm);
+      for (int i = 0; i < 3; i++) S2->pos[i] = mjg_range(r, -0.15, 0.15);
+      add_geoms(r, S2, 1, &ngeom, 0, sz);
+    }
+  }
+  int nlink = 2 + mjg_int(r, 3);
+  for (int k = 0; k < nlink; k++) {
+    mjsBody* L = mjs_addBody(parent, NULL); bname(nm, nbody++); mjs_setName(L->element, nm);
+    for (int i = 0; i < 3; i++) L->pos[i] = mjg_range(r, -0.15, 0.15);
+    mjsJoint* j = mjs_addJoint(L, NULL);
+    j->type = (k == 0) ? (mjg_chance(r, 0.6) ? mjJNT_FREE : mjJNT_HINGE) : (mjg_chance(r, 0.5) ? mjJNT_HINGE : mjJNT_SLIDE);
+    if (j->type != mjJNT_FREE) { j->axis[0] = mjg_range(r, -1, 1); j->axis[1] = mjg_range(r, -1, 1); j->axis[2] = 1; }
+    add_geoms(r, L, 1 + mjg_int(r, 2), &ngeom, 0, sz);
+    mjsBody* tip = L;
+    int ntool = mjg_int(r, 3);
+    for (int t = 0; t < ntool; t++) {           // jointless bodies welded to L
+      mjsBody* T = mjs_addBody(tip, NULL); bname(nm, nbody++); mjs_setName(T->element, nm);
+      for (int i = 0; i < 3; i++) T->pos[i] = mjg_range(r, -0.12, 0.12);
+      add_geoms(r, T, 1 + mjg_int(r, 2), &ngeom, 0, sz);
+      tip = T;
+    }
+    parent = mjg_chance(r, 0.7) ? tip : L;      // the next link hangs on the tool or on the link itself
+  }
+  if (mjg_chance(r, 0.4) && nbody >= 2) {
+    mjsExclude* e = mjs_addExclude(s);
+    char n1[32], n2[32]; int a = mjg_int(r, nbody), b2 = (a + 1 + mjg_int(r, nbody - 1)) % nbody;
+    bname(n1, a); bname(n2, b2); mjs_setString(e->bodyname1, n1); mjs_setString(e->bodyname2, n2);
+  }
+  return s;
+}
+
+static double g_jscale = 1.0;   // joint perturbation scale (chain scenes keep the links close)
 static void scene_state(const mjModel* m, mjData* d, uint64_t seed) {
   mjg_rng R = { seed * 0xD1342543DE82EF95ULL + 99 }; mjg_rng* r = &R;
   for (int j = 0; j < m->njnt; j++) {
@@ -150,7 +200,7 @@ static void scene_state(const mjModel* m, mjData* d, uint64_t seed) {
       case mjJNT_FREE: { for (int i = 0; i < 3; i++) d->qpos[a + i] = m->qpos0[a + i] + mjg_range(r, -0.15, 0.15);
                          double q[4]; mjg_quat(r, q); for (int i = 0; i < 4; i++) d->qpos[a + 3 + i] = q[i]; } break;
       case mjJNT_BALL: { double q[4]; mjg_quat(r, q); for (int i = 0; i < 4; i++) d->qpos[a + i] = q[i]; } break;
-      default: d->qpos[a] = m->qpos0[a] + mjg_range(r, -0.6, 0.6);
+      default: d->qpos[a] = m->qpos0[a] + g_jscale * mjg_range(r, -0.6, 0.6);
     }
   }
   for (int i = 0; i < m->nmocap; i++) {
@@ -186,11 +236,12 @@ static int bp_frame(const mjModel* m, mjData* d, mjtNum frame[9]) {
 }
 
 static void run_scene(uint64_t seed, int nb, int dsbl, int enbl, double omargin) {
-  mjSpec* s = scene_spec(seed, nb);
+  mjSpec* s = nb > 0 ? scene_spec(seed, nb) : chain_spec(seed);      // nb = 0: chain scene
   mjModel* m = mj_compile(s, NULL);
   if (!m) { printf("SCENE fail\nEND\n"); mj_deleteSpec(s); return; }
   m->opt.disableflags = dsbl; m->opt.enableflags = enbl; m->opt.o_margin = omargin;
   mjData* d = mj_makeData(m);
+  g_jscale = nb > 0 ? 1.0 : 0.2;
   scene_state(m, d, seed);
   if (MJG_TRY) {
     // position stage up to collision only (mj_forward's constraint stage rejects explicit pairs between static bodies)
@@ -203,8 +254,9 @@ static void run_scene(uint64_t seed, int nb, int dsbl, int enbl, double omargin)
            m->geom_margin[g], m->geom_gap[g]);
   for (int b = 0; b < m->nbody; b++) {
     int w = m->body_weldid[b];
-    printf("B %d %d %d %d %d %d %d %d %d %d\n", b, w, m->body_weldid[m->body_parentid[w]], m->body_dofnum[w], m->body_mocapid[b] >= 0,
-           m->body_geomnum[b], m->body_geomadr[b], m->body_bvhadr[b], m->body_contype[b], m->body_conaffinity[b]);
+    printf("B %d %d %d %d %d %d %d %d %d %d %d %d %d\n", b, w, m->body_weldid[m->body_parentid[w]], m->body_dofnum[w], m->body_mocapid[b] >= 0,
+           m->body_geomnum[b], m->body_geomadr[b], m->body_bvhadr[b], m->body_contype[b], m->body_conaffinity[b],
+           m->body_parentid[b], m->body_jntnum[b], m->body_dofnum[b]);
   }
   for (int k = 0; k < m->npair; k++)
     printf("P %d %d %d %d %a %a\n", k, m->pair_geom1[k], m->pair_geom2[k], m->pair_signature[k], m->pair_margin[k], m->pair_gap[k]);
